@@ -412,11 +412,74 @@ func c08GenFoldedNames(e *c08Env) {
 	}
 }
 
+// users_default above the sender's level x deletions of entries: a deleted entry takes the new
+// users_default, so deleting one's own entry (or a lower user's) while users_default is above one's
+// level raises that user above the sender
+func c08GenDefaultAboveSender(e *c08Env) {
+	for _, ver := range c07Versions {
+		for _, L := range []int64{50, 30} {
+			for _, ud := range []int64{L + 1, 100, L, L - 1} {
+				for _, victim := range []string{"self", "lower", "equal", "higher", "none"} {
+					for _, how := range []string{"delete", "lower", "keep"} {
+						users := J{"@alice:hs1": L, "@low:hs2": L - 10, "@peer:hs2": L, "@high:hs2": L + 10}
+						old := J{"events": J{"m.room.power_levels": 0}, "users": users, "users_default": ud}
+						n := cloneJ(old)
+						target := map[string]string{"self": "@alice:hs1", "lower": "@low:hs2", "equal": "@peer:hs2", "higher": "@high:hs2"}[victim]
+						if target != "" {
+							switch how {
+							case "delete":
+								delete(sub(n, "users"), target)
+							case "lower":
+								sub(n, "users")[target] = L - 20
+							}
+						}
+						if e.c.Rng.Intn(4) == 0 {
+							// the same with users_default changed in the same event
+							n["users_default"] = ud - 1
+						}
+						e.run(ver, "@alice:hs1", old, n, nil, "join", "pl/default-above-sender/"+how, fmt.Sprintf("L=%d users_default=%d victim=%s", L, ud, victim))
+					}
+				}
+			}
+		}
+	}
+}
+
+// JSON null in place of each sub-object (users, events, notifications) of the old and of the new
+// content: the strict parser turns the map into nil, the lenient one leaves it alone; either way
+// every entry of that map counts as removed / absent
+func c08GenNullMaps(e *c08Env) {
+	for _, ver := range c07Versions {
+		for _, which := range []string{"users", "events", "notifications"} {
+			for _, side := range []string{"new", "old", "both"} {
+				for _, lvl := range []int64{100, 50, 40} {
+					mk := func(null bool) interface{} {
+						b := J{"events": J{"m.room.power_levels": 0, "x.custom": lvl}, "users": J{"@alice:hs1": 50, "@bob:hs2": lvl - 1},
+							"notifications": J{"room": lvl, "x.notif": lvl}}
+						if !null {
+							return b
+						}
+						raw, _ := json.Marshal(b)
+						var m map[string]json.RawMessage
+						_ = json.Unmarshal(raw, &m)
+						m[which] = json.RawMessage("null")
+						return m
+					}
+					o, n := mk(side != "new"), mk(side != "old")
+					e.run(ver, "@alice:hs1", o, n, nil, "join", "pl/null-map/"+which+"/"+side, fmt.Sprintf("entries at %d", lvl))
+				}
+			}
+		}
+	}
+}
+
 func c08All(c *Ctx, propOp string) {
 	e := &c08Env{c: c, propOp: propOp}
 	c08GenExhaustive(e)
 	c08GenSpellings(e)
 	c08GenFoldedNames(e)
+	c08GenDefaultAboveSender(e)
+	c08GenNullMaps(e)
 	c08GenHistories(e, c.Scale(150, 3000))
 }
 
